@@ -196,7 +196,7 @@ fn exhaustive_scope<VS: HSet>(sink: &mut Sink, prop: &str, thorough: bool, debug
 pub fn gen_c13(sink: &mut Sink, thorough: bool, seed: u64, debug: bool) {
     let mut rng = Rng::new(seed ^ 0x1313);
     let versions = vec![1u32, 3, 5];
-    let n_base = if thorough { 3000 } else { 250 };
+    let n_base = crate::util::scaled(if thorough { 3000 } else { 250 });
     let mut bases: Vec<SolveReq<Range<u32>>> = vec![];
     for (reg, root, rv) in corpus::<Range<u32>>() {
         bases.push(SolveReq { debug, root: root.to_string(), rv, reg, strat: Strat::NewestFewest, fault: Fault::None });
@@ -253,7 +253,7 @@ pub fn gen_c17(sink: &mut Sink, thorough: bool, seed: u64, debug: bool) {
         }
     }
     // (b) the solver with the custom version set
-    gen_solver::<BitSet8>(sink, "C17", thorough, seed, debug, if thorough { 100_000 } else { 6_000 });
+    gen_solver::<BitSet8>(sink, "C17", thorough, seed, debug, crate::util::scaled(if thorough { 100_000 } else { 6_000 }));
     let _: BTreeMap<u8, u8> = BTreeMap::new();
 }
 
@@ -262,7 +262,7 @@ pub fn gen_trees(sink: &mut Sink, prop: &str, thorough: bool, seed: u64, debug: 
     use crate::treeck::tree_tokens;
     let mut rng = Rng::new(seed ^ 0x0808);
     let versions = vec![1u32, 3, 5];
-    let n_cases = if thorough { 60_000 } else { 5_000 };
+    let n_cases = crate::util::scaled(if thorough { 60_000 } else { 5_000 });
     let mut regs: Vec<(Registry<Range<u32>>, String, u32, Strat)> = corpus::<Range<u32>>()
         .into_iter()
         .map(|(r, root, rv)| (r, root.to_string(), rv, Strat::NewestFewest))
@@ -292,7 +292,7 @@ pub fn gen_trees(sink: &mut Sink, prop: &str, thorough: bool, seed: u64, debug: 
             }
         }
     }
-    let n_syn = if thorough { 200_000 } else { 8_000 };
+    let n_syn = crate::util::scaled(if thorough { 200_000 } else { 8_000 });
     let mut made = 0u64;
     for _ in 0..n_syn {
         if let Some(t) = crate::report::synthetic_tree(&mut rng) {
